@@ -62,6 +62,8 @@ def replay(cid, path):
         v = json.load(f)
     spec = checks.get(cid)
     spec.prepare()
+    logging.disable(logging.CRITICAL)
+    warnings.simplefilter("ignore")
     res = spec.run_case(v["case"], verbose=True)
     print(json.dumps(v["case"]))
     for line in res.get("log", []):
